@@ -510,7 +510,8 @@ def mon_c18(w, F, vd):
         n_connect = len([fr for fr in conn.frames if fr[1] == "CONNECT" and fr[4] in ("wire", "dropped")])
         # one CONNECT per connection; an application that calls connect() again on a protocol the broker has
         # refused (idle again, transport still open) asks for another one itself
-        asked = len([r for r in w.reqs if r.kind == "connect" and r.conn is conn and r.state_before == "idle"])
+        # ("idle" as the history defines it - never connected or refused, transport open - not as the library reports it)
+        asked = len([r for r in w.reqs if r.kind == "connect" and r.conn is conn and getattr(r, "fresh", False)])
         if n_connect > max(1, asked):
             vd.bad("C18.second_connect", "connection %d: %d CONNECT packets written for %d connect() calls on an idle protocol" % (
                 conn.idx, n_connect, asked))
